@@ -52,6 +52,8 @@ class Contract:
 
 def contract(qual, **kw) -> Contract:
     c = Contract(qual, **kw)
+    import inspect
+    c._module = inspect.stack()[1].frame.f_globals.get('__name__', '').split('.')[-1]
     if qual in REGISTRY:
         raise ValueError(f"duplicate contract for {qual}")
     REGISTRY[qual] = c
